@@ -131,6 +131,8 @@ def run(prop, R, seed):
         res.append({"variant": label, "status": status, "detail": detail[:400]})
         if status == "missed":
             print("SENSITIVITY-MISS: property=%s variant=%s %s" % (prop, label, detail[:300]))
+        elif status in ("skipped", "nocompile"):
+            print("SENSITIVITY-STALE: property=%s variant=%s %s (the variant no longer applies to this tree; it says nothing about the check)" % (prop, label, detail[:200]))
     R.extra["sensitivity"] = {
         "variants": len(res),
         "detected": len([r for r in res if r["status"] == "detected"]),
